@@ -709,8 +709,114 @@ def evaluate_all(ctx, schemas, cases, refs):
     return [r for ch in chunks for r in ch]
 
 
+# --------------------------------------------------------------------------------------------------------------------
+# Source-translation tie (second, tighter tie for the record reader _read_exactly / _load_field; NON-ALARMING on its own;
+# same contract as the stage of harness/props/c16.py).
+#   harness/gen_c17_src.py translates the CURRENT source text of _read_exactly / _load_field / ParsedField into
+#   coq/gen/C17Src.v; Proofs/C17Src.v proves the translation equal to Model/Decode.read_exactly / load_field;
+#   Properties/C17Src.v states it.  These files are NOT among the targets of the main build (EXTRA_TARGETS): a
+#   behaviour-preserving rewrite of the Python functions may make the translator reject or the proof scripts fail while
+#   C17 still holds.  So this stage only RECORDS whether the tie held (evidence: input_distribution "source_tie:*",
+#   coverage.source_translation_tie, an assumptions line, the theorems + Print Assumptions verdicts when it held) and NEVER
+#   calls ctx.fail: when it does not hold, the sampled correspondence and the oracles below decide, as before.
+# --------------------------------------------------------------------------------------------------------------------
+SRC_TIE_PARTS = [
+    ("reader", "C17Src.v", "_read_exactly / _load_field (wire types 0, 1, 2, 5, the group loop with nested groups, the errors) and ParsedField"),
+]
+
+
+class _AuditSink:
+    """lib.audit stores its result in `.proof` of whatever it is given; keeps the main ctx.proof untouched"""
+    proof = None
+
+
+def source_tie_stage(ctx):
+    import re
+
+    report = {"translator": None, "parts": {}}
+    ctx.cov["source_translation_tie"] = report
+    lines = []
+    gen = os.path.join(lib.VERIF, "harness", "gen_c17_src.py")
+    try:
+        # (a) the translator's verdict on the current source (dry run: writes nothing; setup.sh below regenerates
+        #     gen/C17Src.v under the build lock) and its own regression snippets: a translator that fails them ties nothing
+        rc, out = lib.run([lib.PY, gen, "--dry-run"], timeout=300, cwd=lib.VERIF)
+        src, sout = lib.run([lib.PY, gen, "--selftest"], timeout=300, cwd=lib.VERIF)
+        report["translator_selftest"] = sout.strip().splitlines()[-1][:200] if sout.strip() else "no output"
+        ctx.count("source_tie:translator_selftest_ok", 1 if src == 0 else 0)
+        verdicts = {}
+        for l in ([] if src != 0 else out.splitlines()):
+            m = re.match(r"C17SRC-TRANSLATION-(OK|REJECTED): (\w+)(?:: (.*))?$", l)
+            if m:
+                verdicts[m.group(2)] = (m.group(1) == "OK", m.group(3) or "")
+        from_source = "C17SRC-VARINT-FROM-SOURCE: yes" in out
+        report["translator"] = {k: {"accepted": ok, "message": why or "accepted"} for k, (ok, why) in verdicts.items()}
+        for key, prop_file, what in SRC_TIE_PARTS:
+            part = {"what": what, "held": False, "reason": None, "theorems": []}
+            report["parts"][key] = part
+            ok, why = verdicts.get(key, (False, "translator self-test failed" if src != 0 else "no verdict from the translator: " + out.strip()[-300:]))
+            ctx.count(f"source_tie:{key}_translated", 1 if ok else 0)
+            if not ok:
+                part["reason"] = "translator rejected the current source (construct outside its subset): " + why
+            else:
+                target = "Properties/" + prop_file + "o"
+                brc, bout = lib.run([os.path.join(lib.VERIF, "setup.sh"), target], timeout=1500, cwd=lib.VERIF)
+                part["load_varint"] = ("gen/C16Src.v (translated source, equation from Proofs/C16Src.v)" if from_source
+                                       else "model (the C16 translator rejects its source)")
+                force = {}
+                if brc != 0 and from_source:
+                    # the C16 translation of load_varint exists but its proofs do not apply to this tree (a harmless rewrite of
+                    # load_varint): retry with the model's load_varint standing in, so that _load_field can still be tied
+                    force = {"C17SRC_MODEL_VARINT": "1"}
+                    brc2, bout2 = lib.run([os.path.join(lib.VERIF, "setup.sh"), target], timeout=1500, cwd=lib.VERIF, env=force)
+                    if brc2 == 0:
+                        brc, bout = brc2, bout2
+                        part["load_varint"] = "model (Proofs/C16Src.v does not compile on this tree)"
+                        from_source = False
+                if brc != 0:
+                    err = re.findall(r'File "[^"]*", line \d+[^\n]*\n(?:[^\n]*\n){0,6}', bout)
+                    part["reason"] = ("gen/C17Src.v or its proofs do not compile against the current source (the proof scripts are tied "
+                                      "to the shape of the code): " + (err[0] if err else bout[-600:]).strip()[:900])
+                else:
+                    sink = _AuditSink()
+                    pr = lib.audit(sink, prop_file)
+                    part["theorems"] = pr["theorems"]
+                    if pr["problems"] or pr["discharged"] != pr["obligations"] or not pr["obligations"]:
+                        part["reason"] = "audit of Properties/%s: %s" % (prop_file, "; ".join(pr["problems"])[:600] or "no theorem")
+                    else:
+                        part["held"] = True
+                        part["print_assumptions"] = "all %d theorems closed under the global context" % pr["obligations"]
+                        if ctx.proof and not ctx.proof.get("problems") and ctx.build_ok:
+                            ctx.proof["obligations"] += pr["obligations"]
+                            ctx.proof["discharged"] += pr["discharged"]
+                            ctx.proof["theorems"] = list(ctx.proof["theorems"]) + pr["theorems"]
+                            ctx.proof["verdicts"] = list(ctx.proof["verdicts"]) + pr["verdicts"]
+                if force:
+                    # leave the generated files as an ordinary run writes them
+                    lib.run([lib.PY, gen], timeout=300, cwd=lib.VERIF)
+            ctx.count(f"source_tie:{key}_held", 1 if part["held"] else 0)
+            ctx.count("source_tie:load_varint_from_translated_source", 1 if (part["held"] and from_source) else 0)
+            lines.append(f"{key} ({what}): " + ("HELD, %d theorems of Properties/%s closed; load_varint inside it: %s"
+                                                 % (len(part["theorems"]), prop_file, part.get("load_varint"))
+                                                 if part["held"] else "DID NOT HOLD on this tree - " + str(part["reason"])[:400]))
+    except Exception as e:  # noqa  - this stage must never decide the check
+        report["stage_error"] = repr(e)[:500]
+        lines.append("stage could not complete: " + repr(e)[:300])
+        for key, _, _ in SRC_TIE_PARTS:
+            if key not in report["parts"] or not report["parts"][key].get("held"):
+                ctx.dist.setdefault(f"source_tie:{key}_held", 0)
+    held_all = all(report["parts"].get(k, {}).get("held") for k, _, _ in SRC_TIE_PARTS)
+    ctx.src_tie_line = ("source-translation tie (harness/gen_c17_src.py -> coq/gen/C17Src.v, proved equal to the model in Properties/C17Src.v): "
+                        + "; ".join(lines)
+                        + (". Where it did not hold the check FELL BACK to the sampled correspondence and the oracles (no verdict is drawn "
+                           "from a failed translation or a failed equality proof)." if not held_all else ""))
+    ctx.notes.append(ctx.src_tie_line)
+    return report
+
+
 # --------------------------------------------------------------------------------------
 def run(ctx):
+    source_tie_stage(ctx)
     rng = ctx.rng
     th = ctx.thorough
     schemas = [msggen.matrix_schema()] + [msggen.random_schema(rng) for _ in range(5 if not th else 30)] + msggen.twin_schemas() + [msggen.mixed_schema()]
@@ -887,12 +993,25 @@ def finish(ctx):
         k = f"{f['kind']}:{f.get('cls')}"
         summary[k] = summary.get(k, 0) + 1
     ctx.cov["failures_by_stage_and_class"] = summary
+    tie = ctx.cov.get("source_translation_tie") or {}
+    held = [k for k, p in (tie.get("parts") or {}).items() if p.get("held")]
+    assumptions = list(ASSUMPTIONS) + [getattr(ctx, "src_tie_line", "source-translation tie: stage not run")]
+    trusted = list(TRUSTED)
+    if held:
+        trusted.append("source-translation tie (held for: " + ", ".join(held) + "): the translator harness/gen_c17_src.py (Python `ast`, fail-closed, extends "
+                       "harness/gen_c16_src.py; accepted subset documented in both headers) and the semantics of the Python primitives it targets, "
+                       "coq/Model/C16SrcLib.v + coq/Model/C17SrcLib.v (ints as Z, bytes as lists, a readable stream as the list of unread bytes, "
+                       "read(n) for n < 0 reads everything, exceptions by class only, stream state dropped on an exception, a dataclass as a record, "
+                       "an `Any` variable as None | int | bytes); for _read_exactly / _load_field the hand-written model is no longer trusted "
+                       "beyond that: it is PROVED equal to the translation (load_varint inside it: "
+                       + str((tie.get("parts") or {}).get("reader", {}).get("load_varint")) + ")")
     return lib.finish(
         ctx, "proof",
         "Coq theorems over the Gallina mirror of load_fields / _load_field / Message.load (Model/Decode.v) for every byte string and every "
         "well-formed schema + executable correspondence (vm_compute) with parse / FromString / load on valid, truncated, corrupted, "
-        "wire-type-substituted, spliced and random inputs + typing / isolation / rejection oracle on the implementation",
-        ASSUMPTIONS, TRUSTED, RULE,
+        "wire-type-substituted, spliced and random inputs + typing / isolation / rejection oracle on the implementation"
+        + ("; the record reader _read_exactly / _load_field additionally tied by mechanical source translation proved equal to the model" if "reader" in held else ""),
+        assumptions, trusted, RULE,
         extra_cov={"explanation": "theorems are unbounded (all byte strings, all well-formed schemas); the correspondence and the oracle "
                                   "enumerate all truncation points of each generated message up to the size budget and sample beyond it"})
 
